@@ -272,10 +272,70 @@ def build_units(tier: str) -> tuple[list[Unit], dict[str, str]]:
                                              "dependent Skolem width (outside the fold templates)")
                 continue
             units.append(Unit(f"{cname}/{tag}", make_harness(cname, cls, alts)))
+    from .c02 import registry_sids
+    for sid in registry_sids() + [None]:
+        if sid == 0x2C:
+            # definition by memory address: the record width is a function of byte 4 - one unit
+            # per value keeps the strides concrete (quick: nibbles 0,1,2,4,15; thorough: all)
+            units.append(Unit("parse-total/sid=0x2c/other-sub-functions",
+                              parse_total_harness(sid, not_sub=2), max_paths=20000))
+            nib = (0, 1, 2, 4, 15) if tier == "quick" else tuple(range(16))
+            for hi in nib:
+                for lo in nib:
+                    units.append(Unit(f"parse-total/sid=0x2c/sub=0x02/alfid={hi << 4 | lo:#04x}",
+                                      parse_total_harness(sid, sub=2, byte4=hi << 4 | lo),
+                                      max_paths=20000))
+            units.append(Unit("parse-total/sid=0x2c/sub=0x02/shorter-than-5",
+                              parse_total_harness(sid, sub=2, maxlen=4), max_paths=20000))
+            continue
+        units.append(Unit(f"parse-total/sid={'other' if sid is None else f'{sid:#04x}'}",
+                          parse_total_harness(sid), max_paths=20000))
     for u in units:
         if u.setup is None:
             u.setup = uc.install
     return units, skipped
+
+
+def parse_total_harness(sid: int | None, sub: int | None = None, not_sub: int | None = None,
+                        byte4: int | None = None, maxlen: int | None = None):
+    """`UDSRequest.parse_dynamic` is total: for *every* non-empty byte string it returns a
+    request object (typed or raw) and never raises - the virtual ECU and the scanners feed it
+    bytes straight from the wire.  One unit per service id + one for all unregistered ids."""
+    def harness(I: Interp) -> None:
+        from .c02 import registry_sids
+        S = service_module()
+        pdu = I.fresh_bytes("pdu", inp=True, minlen=1)
+        b0 = pdu.t[0]
+        I.assume(z3.And(b0 >= 0, b0 <= 255))
+        if sid is not None:
+            I.assume(b0 == sid)
+        else:
+            I.assume(z3.And(*[b0 != k for k in registry_sids()]))
+        n = models.seq_len(pdu.t)
+        if sub is not None:
+            I.assume(z3.And(n >= 2, pdu.t[1] % 0x80 == sub, pdu.t[1] >= 0, pdu.t[1] <= 255))
+        if not_sub is not None:
+            I.assume(z3.Implies(n >= 2, z3.And(pdu.t[1] % 0x80 != not_sub, pdu.t[1] >= 0,
+                                               pdu.t[1] <= 255)))
+        if byte4 is not None:
+            I.assume(z3.And(n >= 5, pdu.t[4] == byte4))
+        if maxlen is not None:
+            I.assume(n <= maxlen)
+        try:
+            r = I.call(S.UDSRequest.parse_dynamic, pdu)
+        except PyExc as e:
+            I.fail("T-parse_dynamic-returns-a-request-for-every-non-empty-byte-string",
+                   f"raises {e.exc.cls.__name__}")
+            return
+        I.prove("T-parse_dynamic-result-is-a-UDSRequest",
+                z3.BoolVal(isinstance(r, VObj) and issubclass(r.cls, S.UDSRequest)))
+        try:
+            out = I.getattr_v(r, "pdu")
+        except PyExc as e:
+            I.fail("T-parsed-request-serialises", e.exc.cls.__name__)
+            return
+        I.prove("T-parsed-request-keeps-the-received-bytes", models.bytes_eq(I, out.t, pdu.t))
+    return harness
 
 
 def invalid_alfid_harness(cname: str, cls: type, alts: dict[str, str]):
@@ -393,7 +453,46 @@ def native_outcomes(cname: str, pyargs: list[Any]) -> dict[str, tuple[bool, str]
     return out
 
 
+def native_parse_total(unit: str, model: dict) -> tuple[bool, str]:
+    """parse_dynamic on the counter-model bytes, then on every 1- and 2-byte string and a family
+    of longer ones for the unit's service id."""
+    import logging
+    logging.disable(logging.CRITICAL)
+    S = service_module()
+    cands: list[bytes] = []
+    m = model.get("pdu")
+    if isinstance(m, (list, tuple)):
+        cands.append(bytes(int(x) & 0xFF for x in m))
+    elif isinstance(m, str):
+        try:
+            cands.append(bytes.fromhex(m))
+        except ValueError:
+            pass
+    part = unit.split("sid=")[1].split("/")[0] if "sid=" in unit else "other"
+    sids = [int(part, 16)] if part != "other" else [0x00, 0x12, 0x3F, 0x40, 0x7F, 0x86, 0xFF]
+    for sid in sids:
+        cands.append(bytes([sid]))
+        cands += [bytes([sid, b]) for b in range(256)]
+        cands += [bytes([sid, b]) + tail for b in (0, 1, 2, 3, 0x81) for tail in (
+            b"\x00", b"\x00\x00", b"\x12\x34\x11", b"\x12\x34\x11\x01\x02\x03")]
+    for raw in cands:
+        if not raw:
+            continue
+        try:
+            r = S.UDSRequest.parse_dynamic(raw)
+        except BaseException as e:  # noqa: BLE001
+            return True, f"UDSRequest.parse_dynamic({raw.hex()}) raises {type(e).__name__}: {e}"
+        try:
+            if r.pdu != raw:
+                return True, f"UDSRequest.parse_dynamic({raw.hex()}).pdu == {r.pdu.hex()}"
+        except BaseException as e:  # noqa: BLE001
+            return True, f"UDSRequest.parse_dynamic({raw.hex()}).pdu raises {type(e).__name__}"
+    return False, f"{len(cands)} byte strings parse and keep their bytes"
+
+
 def native_replay(unit: str, obligation: str, model: dict) -> tuple[bool, str]:
+    if unit.startswith("parse-total/"):
+        return native_parse_total(unit, model)
     cname, alts, fixed = parse_unit(unit)
     S = service_module()
     cls = getattr(S, cname)
@@ -431,6 +530,8 @@ def random_arg(rnd: random.Random, kind: str) -> Any:
 
 
 def native_search(unit: str, obligation: str, seed: int) -> dict | None:
+    if unit.startswith("parse-total/"):
+        return {}
     cname, alts, fixed = parse_unit(unit)
     S = service_module()
     cls = getattr(S, cname)
